@@ -538,6 +538,17 @@ func runC13Search(c *vk.Ctx) {
 			target.Add(target, big.NewInt(r.Range(-50, 50)))
 		}
 		iters := 1 + r.Intn(60)
+		if i%2 == 1 && r.Intn(4) == 0 {
+			// BigDec search driven down to the last decimals: a tolerance of a few 1e-18 (or none) and enough
+			// iterations to get there
+			ulps := r.I64n(50)
+			tol.add = big.NewRat(ulps, 1_000_000_000_000_000_000)
+			et.AdditiveTolerance = sdkmath.LegacyNewDecWithPrec(ulps, 18)
+			tol.mul, et.MultiplicativeTolerance = nil, sdkmath.LegacyDec{}
+			hi = int64(1) << uint(4+r.Intn(9))
+			target = fInt(big.NewInt(r.I64n(hi)))
+			iters = 100 + r.Intn(100)
+		}
 		if i%2 == 0 {
 			calls := 0
 			got, err := osmomath.BinarySearch(func(x osmomath.Int) (osmomath.Int, error) {
